@@ -22,7 +22,8 @@ import (
 )
 
 type childReq struct {
-	Op        string   `json:"op"`
+	Op        string     `json:"op"`
+	Steps     []childReq `json:"steps,omitempty"`
 	Dir       string   `json:"dir"`
 	Doc       string   `json:"doc_b64,omitempty"`
 	NilDoc    bool     `json:"nil_doc,omitempty"`
@@ -373,6 +374,54 @@ func c19Property(env *storeEnv) func(t *rapid.T) {
 					}
 				}
 				checkConfinement("retrieve")
+			},
+			"session": func(t *rapid.T) {
+				// several calls on ONE backend object in one process, with the directory removed in between:
+				// store(A); remove directory; store(B); retrieve(B); retrieve(A)
+				if baseBroken != "" {
+					t.Skip("base broken")
+				}
+				idA := rapid.SampledFrom(c19IDs[:8]).Draw(t, "idA")
+				idB := rapid.SampledFrom(c19IDs[:8]).Draw(t, "idB")
+				if idA == idB {
+					t.Skip("same id")
+				}
+				rawA, errA := proto.Marshal(genStoreDoc(t, idA))
+				rawB, errB := proto.Marshal(genStoreDoc(t, idB))
+				if errA != nil || errB != nil {
+					t.Skip("unmarshalable")
+				}
+				steps := []childReq{
+					{Op: "store", Doc: base64.StdEncoding.EncodeToString(rawA)},
+					{Op: "rmbase"},
+					{Op: "store", Doc: base64.StdEncoding.EncodeToString(rawB)},
+					{Op: "retrieve", IDs: []string{b64(idB)}},
+					{Op: "retrieve", IDs: []string{b64(idA)}},
+				}
+				r := env.run([]childReq{{Op: "session", Dir: base, Steps: steps}})
+				logf("session on one backend: store(%q); remove directory; store(%q); retrieve both -> exit=%d %+v", idA, idB, r.Exit, r.Res)
+				checkChild("session", r, 5)
+				if damaged[entryName(idA)] == "" && r.Res[0].Err != "" {
+					t.Fatalf("session: first store failed: %s%s", r.Res[0].Err, history())
+				}
+				if r.Res[2].Err != "" {
+					t.Fatalf("session: a store that finds its directory gone did not create it again: %s%s", r.Res[2].Err, history())
+				}
+				got := &sbom.Document{}
+				want := &sbom.Document{}
+				rawGot, _ := base64.StdEncoding.DecodeString(r.Res[3].Doc)
+				_ = proto.Unmarshal(rawGot, got)
+				_ = proto.Unmarshal(rawB, want)
+				if r.Res[3].Err != "" || !proto.Equal(got, want) {
+					t.Fatalf("session: the document stored after the directory was re-created is not retrieved (err=%q)%s", r.Res[3].Err, history())
+				}
+				if r.Res[4].Err == "" {
+					t.Fatalf("session: an entry that was removed together with the directory is still retrieved%s", history())
+				}
+				model = map[string][]byte{idB: rawB}
+				damaged = map[string]string{}
+				checkConfinement("session")
+				verify("session")
 			},
 			"fault": func(t *rapid.T) {
 				if baseBroken != "" {
